@@ -1,6 +1,6 @@
 ----------------------------- MODULE CookieTrace -----------------------------
 (* Trace judge for C13.  Lines (ndjson, TRACE_FILE), text as code point arrays:                         *)
-(*  dump: [t, i, op, flow, key, value, a, exc, hdr, t0d, t0s, t1d, t1s, full, req, ps, pe, perr]        *)
+(*  dump: [t, i, op, flow, key, value, a, exc, hdr, t0d, t0s, t1d, t1s, full, req, ps, pe, perr, jx]    *)
 (*        a    = the attribute record of Cookie.tla (what was requested)                                 *)
 (*        hdr  = string returned by dump_cookie / the Set-Cookie header of Response.set_cookie           *)
 (*        t0*, t1* = clock (days, seconds of day) before / after the call (clock-derived Expires)        *)
@@ -57,6 +57,17 @@ JudgeDump(r) ==
           ELSE "ok"
 
 ShouldDelete(a) == (a.ma_kind # "none" /\ (\A i \in 1..Len(a.ma_digits) : a.ma_digits[i] = 0)) \/ (a.exp_kind \in {"dt", "ts"} /\ a.exp_days = 0 /\ a.exp_secs = 0)
+\* Client.set_cookie (flow "client" with a jar lookup): what the jar stored, read with Client.get_cookie
+\*  r.jx = [want, has, exp_set, exp_days, exp_secs, ma_set, ma_neg, ma_digits]   (instant of Cookie.expires as UTC day number / second of day)
+JudgeStored(r) == LET a == r.a j == r.jx IN
+  IF ~InDomain(r) \/ SameSiteBad(a) \/ r.exc # "" \/ ~j.want \/ ShouldDelete(a) THEN "ok"
+  ELSE IF ~j.has THEN "JarStoredMissing"
+  ELSE IF a.exp_kind \in {"dt", "ts"} /\ ~(j.exp_set /\ j.exp_days = a.exp_days /\ j.exp_secs = a.exp_secs) THEN "JarStoredExpires"
+  ELSE IF SyncExpires(a) /\ Len(a.ma_digits) <= 8 /\ ~(j.exp_set /\ SyncOK(HttpDate(j.exp_days, j.exp_secs), r)) THEN "JarStoredExpires"
+  ELSE IF ~HasExpires(a) /\ j.exp_set THEN "JarStoredExpires"
+  ELSE IF j.ma_set # (a.ma_kind # "none") \/ (j.ma_set /\ (j.ma_neg # a.ma_neg \/ j.ma_digits # a.ma_digits)) THEN "JarStoredMaxAge"
+  ELSE "ok"
+
 JudgeJar(r) ==
   IF ~InDomain(r) \/ SameSiteBad(r.a) \/ ShouldDelete(r.a) THEN "ok"
   ELSE IF r.exc # "" THEN "JarFlowRaised"
@@ -70,7 +81,7 @@ JudgeJar(r) ==
   ELSE IF r.jma_set # (r.a.ma_kind # "none") \/ (r.jma_set /\ (r.jma_neg # r.a.ma_neg \/ r.jma_digits # r.a.ma_digits)) THEN "JarMaxAge"
   ELSE "ok"
 
-Verdict(r) == CASE r.op = "dump" -> JudgeDump(r) [] r.op = "jar" -> JudgeJar(r) [] OTHER -> "ok"
+Verdict(r) == CASE r.op = "dump" -> (IF JudgeDump(r) # "ok" THEN JudgeDump(r) ELSE JudgeStored(r)) [] r.op = "jar" -> JudgeJar(r) [] OTHER -> "ok"
 
 \* the MultiDict returned by parse_cookie groups repeated keys (first occurrence order)
 RECURSIVE GroupPairs(_)
